@@ -245,7 +245,9 @@ def cfb_rebuild(streams):
     """a fresh, valid compound file holding the given streams (flat directory: calamine looks
     streams up by name only)"""
     import xlsgen
-    return xlsgen.cfb_wrap(list(streams))
+    # no sibling / child links: since c0259aa the reader follows the hierarchy when there is one,
+    # and the streams of the VBA storages stand side by side here
+    return xlsgen.cfb_wrap(list(streams), links=False)
 
 def systematic_cfb(data):
     """header fields, DIFAT / FAT / mini FAT / directory entries at their boundary values, cycles,
